@@ -379,6 +379,14 @@ func (b *builtWorld) poolFeasible(np *v1.NodePool, pod *corev1.Pod) (bool, strin
 			}
 		}
 		for _, ch := range choices {
+			if b.choiceOK != nil && !b.choiceOK(ch) {
+				continue
+			}
+			// Karpenter adds the daemon overhead to the pod's requests and wants ALL of it to fit (the admission oracle only
+			// judges the resources the placed pod asks for)
+			if ok, _ := ref.Fits(ref.SumRequests(append(append([]*corev1.Pod{}, residents...), pod)...), it.Allocatable(ch.of)); !ok {
+				continue
+			}
 			for _, custom := range combos {
 				node := mkNode(it, ch, custom)
 				if (ref.NodeCase{Node: node, Allocatable: it.Allocatable(ch.of), Residents: residents, Placed: []*corev1.Pod{pod}}).Admissible() == nil {
